@@ -45,6 +45,7 @@ func TestVerifSim(t *testing.T) {
 		"C19": scenarioMachine,
 		"C09": scenarioMachine,
 		"C05": scenarioUploadFaults,
+		"C11": scenarioViewer,
 	})
 }
 
